@@ -533,10 +533,11 @@ func c13Run(rc *RunCtx, params any) {
 
 func init() {
 	Register(&Scenario{
-		ID:        "C13",
-		Counts:    c13Counts,
-		Gen:       c13Gen,
-		NewParams: func() any { return &C13Params{} },
-		Run:       c13Run,
+		ID:              "C13",
+		BudgetIsVerdict: true,
+		Counts:          c13Counts,
+		Gen:             c13Gen,
+		NewParams:       func() any { return &C13Params{} },
+		Run:             c13Run,
 	})
 }
